@@ -64,15 +64,20 @@ impl<K: Clone + PartialEq + Eq + Hash + std::fmt::Debug + std::cmp::PartialOrd, 
         while r.len() + wlen > self.limit {
             let res = self.__pop_lru(&mut r);
 
-            if let Some(val) = res {
-                log::warn!(
-                    "lru cache eviction, type {} dirty {}",
-                    crate::helpers::qcow2_type_of(&val.1),
-                    val.1.is_dirty()
-                );
-                if val.1.is_dirty() {
-                    vec.push(val);
+            match res {
+                Some(val) => {
+                    log::warn!(
+                        "lru cache eviction, type {} dirty {}",
+                        crate::helpers::qcow2_type_of(&val.1),
+                        val.1.is_dirty()
+                    );
+                    if val.1.is_dirty() {
+                        vec.push(val);
+                    }
                 }
+                // nothing left to evict (more concurrent misses than cache
+                // entries): exceed the limit for a while instead of spinning
+                None => break,
             }
         }
 
